@@ -15,6 +15,7 @@ from __future__ import annotations
 import json
 import random
 import threading
+import warnings
 from typing import Any
 
 import optuna
@@ -32,6 +33,11 @@ RULE = (
 
 def gen_case(r: random.Random) -> dict[str, Any]:
     pre = [{"x": r.choice([0.0, 0.25, 1.0, 0.123456789]), "c": r.choice(["a", "b"])} for _ in range(r.randint(0, 3))]
+    for p0 in pre:
+        if r.random() < 0.5:
+            # stepped parameters: on the grid, and inside the range but OFF the grid (optuna warns and hands it over as is)
+            p0["s"] = r.choice([0.25, 0.3, 0.6, 1.0])
+            p0["m"] = r.choice([4, 3, 7, 10])
     nth = r.choice([2, 2, 3, 4])
     progs = []
     tag = len(pre)
@@ -43,6 +49,9 @@ def gen_case(r: random.Random) -> dict[str, Any]:
                 acts.append({"a": "ask", "suggest": r.random() < 0.8, "tell": r.random() < 0.7})
             elif k < 0.85:
                 p: dict[str, Any] = {"x": r.choice([0.0, 0.5, 1.0, 0.3333333333333333])}
+                if r.random() < 0.4:
+                    p["s"] = r.choice([0.5, 0.3, 0.9])
+                    p["m"] = r.choice([2, 3, 9])
                 if r.random() < 0.5:
                     p["c"] = r.choice(["a", "b"])
                 acts.append({"a": "enqueue", "params": p, "tag": tag})
@@ -75,6 +84,9 @@ class Recorder:
             raise
         self._log.append(("cas", trial_id, int(state.value), bool(ans)))
         return ans
+
+
+_TL = threading.local()
 
 
 def run_case(cfg: str, case: dict[str, Any], seed: int, tmp: str, controlled: bool, schedule: list[int] | None = None, pct: int | None = None) -> dict[str, Any]:
@@ -117,6 +129,7 @@ def run_case(cfg: str, case: dict[str, Any], seed: int, tmp: str, controlled: bo
             study = studies[th % len(studies)]
 
             def f() -> None:
+                _TL.i = th
                 for act in case["progs"][th]:
                     inv = now()
                     if act["a"] == "ask":
@@ -128,6 +141,10 @@ def run_case(cfg: str, case: dict[str, Any], seed: int, tmp: str, controlled: bo
                             ev["c"] = t.suggest_categorical("c", ["a", "b"])
                             ev["n"] = t.suggest_int("n", 0, 5)
                             ev["x2"] = t.suggest_float("x", 0, 1)
+                            with warnings.catch_warnings():
+                                warnings.simplefilter("ignore")
+                                ev["s"] = t.suggest_float("s", 0, 1, step=0.25)
+                                ev["m"] = t.suggest_int("m", 0, 10, step=2)
                         ev["user"] = dict(t.user_attrs)
                         events.append(ev)
                         if act["tell"]:
@@ -149,7 +166,10 @@ def run_case(cfg: str, case: dict[str, Any], seed: int, tmp: str, controlled: bo
             return f
 
         if controlled:
-            s.run([body(t) for t in range(nth)], timeout=120)
+            # journal "processes": thread th works on storage object th % n; the first threads of all processes share one
+            # thread ident (forked workers' main threads do), so only the per-object prefix keeps worker ids apart
+            with fleet.same_ident_across_processes(lambda: getattr(_TL, "i", None), len(storages)):
+                s.run([body(t) for t in range(nth)], timeout=120)
             if s.errors:
                 t, e = next(iter(s.errors.items()))
                 if isinstance(e, (sched.StepLimit, sched.Deadlock)):
@@ -169,10 +189,11 @@ def run_case(cfg: str, case: dict[str, Any], seed: int, tmp: str, controlled: bo
                 return g
 
             ths = [threading.Thread(target=guard(body(t))) for t in range(nth)]
-            for t in ths:
-                t.start()
-            for t in ths:
-                t.join(120)
+            with fleet.same_ident_across_processes(lambda: getattr(_TL, "i", None), len(storages)):
+                for t in ths:
+                    t.start()
+                for t in ths:
+                    t.join(120)
             if errs:
                 return {"crash": "a worker raised " + errs[0], "trace": []}
         final = studies[0].get_trials(deepcopy=False)
@@ -225,13 +246,13 @@ def judge(case: dict[str, Any], events: list[dict[str, Any]], final: list[Any], 
             if a["user"].get("tag") != tag:
                 out.append("queued trial %d lost its user attributes on the way to the worker: %r" % (ft.number, a["user"]))
             if "x" in a:
-                for name in ("x", "c"):
+                for name in ("x", "c", "s", "m"):
                     if name in q["params"] and a[name] != q["params"][name]:
                         out.append("queued trial %d: worker received %s=%r, enqueued %r" % (ft.number, name, a[name], q["params"][name]))
         if "x" in a:
             if a["x"] != a["x2"]:
                 out.append("trial %d: suggest_float('x') returned %r then %r" % (ft.number, a["x"], a["x2"]))
-            for name in ("x", "c", "n"):
+            for name in ("x", "c", "n", "s", "m"):
                 if ft.params.get(name) != a[name]:
                     out.append("trial %d: stored %s=%r but the worker received %r" % (ft.number, name, ft.params.get(name), a[name]))
     # (3) none skipped
